@@ -29,14 +29,14 @@ def alphabet(name):
     return _ALPHA[name]
 
 
-def docs(level, tier, rep=None, cfg=None):
+def docs(level, tier, rep=None, cfg=None, wrapname="Wrap2"):
     """All documents of DocGen_<level>_<tier>.cfg as strings (L1: lines joined by newline)."""
     cfg = cfg or f"DocGen_{level}_{tier}.cfg"
     r = C.run_tlc("MCDocGen", cfg, allow_violation=False, heap="8g", timeout=1800)
     if rep is not None:
         rep.tlc(f"DocGen[{cfg}]", r)
     alpha = alphabet(level)
-    wrap = alphabet("Wrap2")
+    wrap = alphabet(wrapname)
     sep = "\n" if level == "L1" else ""
     out = []
     for line in r.out.splitlines():
@@ -44,7 +44,7 @@ def docs(level, tier, rep=None, cfg=None):
             rec = json.loads(json.loads(line))
             s = sep.join(alpha[i - 1] for i in rec["d"])
             for w in reversed(rec["w"]):          # innermost wrapper is the last index
-                s = wrap[w - 1][0] + s + wrap[w - 1][1]
+                s = s.join(wrap[w - 1])            # <<prefix, suffix>> or <<a, b, c>>: content placed in every gap
             out.append(s)
     if len(out) != r.distinct:
         raise C.MachineryError(f"DocGen {cfg}: {len(out)} documents exported for {r.distinct} states")
